@@ -615,3 +615,18 @@ func (r *vfRef) compare(real *RIB) {
 		vfAssert(!r.legitOK(x), "C02:no-held-operation-is-resolvable")
 	}
 }
+
+// flush empties the named instances of the reference state (held operations are not touched).
+func (r *vfRef) flush(nis []string) {
+	for _, name := range nis {
+		n := r.ni[name]
+		if n == nil {
+			continue
+		}
+		n.v4 = map[string]*vfRefTop{}
+		n.v6 = map[string]*vfRefTop{}
+		n.mpls = map[uint64]*vfRefTop{}
+		n.nhg = map[uint64]*vfRefNHG{}
+		n.nh = map[uint64]*vfRefNH{}
+	}
+}
